@@ -4,8 +4,9 @@ CLAIMED = True
 CFG = dict(
     rule="each case = a prepared scripted source (real AnySource/PrepareRun, 1..3 channels) + a history of 1..60 ops: ~50% blocks through the "
          "real ProcessSegments carrying 0..40 external-trigger row counts (increasing, with extreme values 0, -1, +-2^62) and a dropped-frame "
-         "count (0, 1..99999999, negative) at first frames 0 .. 2^40; ~20% state labels through the real SourceControl.SetExperimentStateLabel "
-         "(WaitForError) or as 'UNPAUSE label' (labels incl. spaces, commas, '#', the words START/STOP/PAUSE, empty, and 5% containing \\n / \\r); "
+         "count (0, 1..99999999, negative) at first frames 0 .. 2^40; ~24% state labels through the real SourceControl.SetExperimentStateLabel "
+         "(WaitForError), as 'UNPAUSE label', or (45% of them) through the exported AnySource.SetExperimentStateLabel with a caller-chosen time "
+         "stamp that is earlier than / equal to / later than the previous one and than the clock-stamped lines (2001, 2096, 0, 1) (labels incl. spaces, commas, '#', the words START/STOP/PAUSE, empty, and 5% containing \\n / \\r); "
          "~30% START (valid / no file type) / STOP / PAUSE / UNPAUSE / junk through the real SourceControl.WriteControl, 0..40% of them illegal in "
          "the current state (STOP while stopped, START while active, labels while inactive). Whenever a STOP ends a run the three files of that "
          "run directory are read back from disk (int64 counts after the header line; '%d %d' lines; '<digits>, <label>' lines) together with the "
@@ -17,7 +18,7 @@ CFG = dict(
     jobs=seeds(2, 6),
     lean_files=["C20", "C06"],
     trusted_base=["the ticker-driven flushes and the bufio layer do not change what a file contains once it is closed (flush abstracted)",
-                  "time stamps of state lines are wall-clock values: only their form (decimal digits) is checked",
+                  "time stamps written by the code itself (time.Now()) are only checked to lie inside the case's wall-clock window; caller-supplied time stamps are compared exactly",
                   "request strings and labels are byte strings; the WriteControl dispatch is the C06 model's classify (ASCII)"],
     assumptions=["a START is 'valid' when it selects LJH2.2 (the other START checks - paths, projectors - are C06's subject); every START names the same base path",
                  "file-creation failures (which make the core loop panic by design, DESIGN section 7 item 15) are outside the quantifier",
@@ -49,4 +50,5 @@ THEOREMS = [
     ("DastardV.Props.C20", "DastardV.C20.C20_state_file"),
     ("DastardV.Props.C20", "DastardV.C20.C20_fresh_after_restart"),
     ("DastardV.Props.C20", "DastardV.C20.C20_closed_files_frozen"),
+    ("DastardV.Props.C20", "DastardV.C20.C20_label_own_stamp"),
 ]
